@@ -27,7 +27,7 @@ pub fn def() -> PropDef {
     }
 }
 
-pub const CAUSES: [Cause; 13] = [
+pub const CAUSES: [Cause; 14] = [
     Cause::None,
     Cause::Stop,
     Cause::Halt,
@@ -41,6 +41,7 @@ pub const CAUSES: [Cause; 13] = [
     Cause::TimeoutFail,
     Cause::CancelPoll,
     Cause::CancelStep,
+    Cause::RestartErr,
 ];
 
 pub fn generate(g: &mut G, index: u64) -> Scenario {
